@@ -148,6 +148,33 @@ def primitive_steps(name, doc, pool, rnd, n=120):
         for _ in range(3):
             f, t = sorted((P(), P()))
             out.append((f"wrap-like ReplaceAroundStep({f},{t},{f},{t},<{tname}>,1)", ReplaceAroundStep(f, t, f, t, Slice(Fragment([w], 2), 0, 0), 1, True)))
+    # nested wrappers, open or closed on either side, gap landing at depth 1 or 2 of the slice: the
+    # shapes in which insert_into must decide at which level the landing node is checked
+    ranges = []
+
+    def visit(node, pos, *_):
+        if not node.is_text:
+            ranges.append((pos, pos + node.node_size, pos, pos + node.node_size))
+            if not node.is_leaf:
+                ranges.append((pos, pos + node.node_size, pos + 1, pos + node.node_size - 1))
+        return True
+
+    doc.descendants(visit)
+    rnd.shuffle(ranges)
+    nonleaf = [t for t, nt in O.nodes.items() if not (nt.is_leaf or nt.is_text or nt.has_required_attrs() or t == O.top)]
+    pairs = [(a, b) for a in nonleaf for b in nonleaf]
+    rnd.shuffle(pairs)
+    for a, b in pairs[:10]:
+        inner = D.mk_node(S, b, [])
+        outer = D.mk_node(S, a, [inner])
+        frag = Fragment([outer], 4)
+        for (f, t, gf, gt) in ranges[:4]:
+            for os_, oe_ in ((0, 0), (1, 1), (1, 0), (0, 1)):
+                for ins in (1, 2):
+                    if ins > 4 - os_ - oe_:
+                        continue
+                    out.append((f"nested ReplaceAroundStep({f},{t},{gf},{gt},<{a}({b})>({os_},{oe_}),{ins - os_})",
+                                ReplaceAroundStep(f, t, gf, gt, Slice(frag, os_, oe_), ins - os_, True)))
     return out
 
 
